@@ -1,4 +1,5 @@
 import IsalVerif.Props.C06
+import IsalVerif.Lemmas.BaseFamily
 /-!
 # C11 — a rejected hash submit changes nothing and poisons no later call
 
@@ -134,10 +135,8 @@ theorem C11_unfixed_poisons : d3Witness = some (false, 2012, 0) := by decide +ke
 
 /-! ### the synchronous base family (`*_ctx_base.c`) -/
 
-theorem baseUpdate_error (A : Alg D) (x : Ctx D) (data : Bytes) : (baseUpdate A x data).error = x.error := by
-  unfold baseUpdate
-  simp only []
-  split <;> split <;> split <;> (try split) <;> (try split) <;> rfl
+theorem baseUpdate_error (A : Alg D) (x : Ctx D) (data : Bytes) : (baseUpdate A x data).error = x.error :=
+  (baseUpdate_fields A x data).2.2.2.2.2.2
 
 theorem baseFinal_error (A : Alg D) (x : Ctx D) : (baseFinal A x).error = x.error := rfl
 
@@ -156,6 +155,7 @@ theorem C11_base_nopoison (A : Alg D) (m : M D) (c : Cid) (data : Bytes) (flags 
     rw [if_neg (by simpa using h1), if_neg (by intro ⟨a, b⟩; exact h2 a b), if_neg (by intro ⟨a, b⟩; exact h3 a b)]
     refine ⟨?_, rfl⟩
     simp only [setCtx, if_true]
+    unfold baseAccepted
     split <;> simp [baseFinal_error, baseUpdate_error, baseInit]
   refine ⟨herr.2, herr.1, ?_⟩
   rw [herr.2]; simp [isalCode, herr.1]
